@@ -100,7 +100,7 @@ class P(Prop):
 
     def gen_case(self):
         rng = self.rng
-        c = gen.circuit(rng, allow_x=True, consts=0.3, adversarial=0.1)
+        c = gen.circuit(rng, allow_x=True, consts=0.3, adversarial=0.1, selfloops=0.08)
         if rng.random() < 0.4:
             gen.add_flops(rng, c, connect_all=rng.random() < 0.6)
         if rng.random() < 0.35:
